@@ -663,6 +663,19 @@ Section FRun.
     intros Ha Hc L. destruct (frun_all h frun_init None frun_inv_init Ha Hc) as [last [_ [_ [_ Hs]]]].
     apply safe_consistent; auto.
   Qed.
+
+  Theorem flagged_crash_consistent_expected h k l f m :
+    history_avoids fk h = true -> flush_ids_change None h = true ->
+    lists_world l (crash (fr_log (run_flagged fk h)) k) -> l <> [] ->
+    check_loop fk l (Some f) false = COk (Some m) ->
+    m = f /\
+    exists rc, In rc (fr_recs (run_flagged fk h)) /\ (r_pos rc <= k)%nat /\ m = mark_of CLEAN (r_id rc) /\
+      forall n c, wget n (crash (fr_log (run_flagged fk h)) k) = Some c ->
+        match wget n (r_snap rc) with Some s => db_eq c s | None => db_empty c end.
+  Proof.
+    intros Ha Hc L Hne E. destruct (frun_all h frun_init None frun_inv_init Ha Hc) as [last [_ [_ [_ Hs]]]].
+    eapply safe_consistent_expected; eauto.
+  Qed.
 End FRun.
 
 (* ------------------------------------------------------------------ why consecutive flush IDs must differ.
